@@ -30,6 +30,10 @@ func streamVM(o *Out, r *rand.Rand, n int, thorough bool) {
 			o.Sum.Hist["parse-error"]++
 			continue
 		}
+		if o.Skipped(i, src) {
+			continue
+		}
+		o.Current(i, src)
 		res := runVM(stmt, -1, 3*time.Second)
 		if res.hung {
 			o.Sum.Skipped++
